@@ -143,11 +143,95 @@ fn key_bytes_sub(ctx: &Ctx) -> Sub {
     .witness(&["accepted-compatible", "rejected"])
 }
 
+/// decoded body lengths every non-token parser is known to own (from the library-made samples and the official
+/// vectors); None for kinds whose body length legitimately varies (RSA keys in DER / PEM and what wraps them)
+fn owned_lengths(p: &parsers::Parser, ss: &[samples::Sample]) -> Option<Vec<usize>> {
+    // KeyText is the unvalidated text form: its bytes are checked when it is converted into a Key (the key.* parsers)
+    // wrapped / sealed blobs are judged when they are opened (sub paserk-header-relabel), not when they are parsed
+    if !(p.kind.starts_with("key.") || p.kind.starts_with("id.")) {
+        return None;
+    }
+    let pv = backends::ver_of(p.backend_idx);
+    if pv == 1 && (p.kind.contains("public") || p.kind.contains("secret")) {
+        return None;
+    }
+    let mut v: Vec<usize> = ss.iter().filter(|s| expected_accept(p, s)).filter_map(|s| crate::pk::split(&s.text).map(|(_, b)| b.len())).collect();
+    v.sort();
+    v.dedup();
+    Some(v)
+}
+
+/// the textual parsers of fixed-length kinds accept a body of exactly their own length and no other:
+/// (a) every body length 0..=MAXLEN, (b) the body of every valid value of another kind under this parser's header
+fn body_length_sub(ctx: &Ctx) -> Sub {
+    const MAXLEN: usize = 200;
+    let ps = Arc::new(parsers::all());
+    let ss = Arc::new(samples::all(ctx.tier.pick(2, 3)));
+    let n = ps.len() as u64;
+    Sub::new(
+        "body-length-x-parser",
+        n,
+        format!("every parser of a fixed-length kind (keys and key ids; RSA material excluded; KeyText is the unvalidated text form and wrapped / sealed blobs are judged when opened) x (a) bodies of every length 0..={MAXLEN} (two fillings) and (b) the body of every valid serialised key / id / wrapped key of any kind and version, placed under the parser's own header: rejected unless the body has exactly a length the parser's own kind has"),
+        move |idx, describe| {
+            let p = &ps[idx as usize];
+            let mut o = Outcome::new();
+            o.evals = 0;
+            if describe {
+                o.sample = Some(json!({"parser": format!("{}:{}", p.backend, p.kind), "header": p.header}));
+            }
+            let Some(own) = owned_lengths(p, &ss) else {
+                o.class("variable-length-kind");
+                o.evals = 1;
+                o.nontrivial = 1;
+                return o;
+            };
+            let mut offer = |o: &mut Outcome, body: &[u8], what: String| {
+                o.evals += 1;
+                let text = format!("{}{}", p.header, crate::ops::b64(body));
+                let mut fns: Vec<(&str, parsers::ParseFn)> = vec![("parse", p.parse)];
+                if let Some(sd) = p.serde {
+                    fns.push(("serde", sd));
+                }
+                for (via, f) in fns {
+                    match subject(|| f(&text)) {
+                        Ok(Ok(_)) if !own.contains(&body.len()) => o.violate(
+                            format!("length/{}:{}/{via}", backends::ver_of(p.backend_idx), p.kind),
+                            format!("{}:{} accepts (via {via}) a body of {} bytes ({what}); its own kind has {own:?} bytes", p.backend, p.kind, body.len()),
+                            json!({"string": text}),
+                        ),
+                        Ok(Ok(_)) => o.class("own-length-accepted"),
+                        Ok(Err(_)) => o.class("rejected"),
+                        Err(pn) => o.violate(format!("length/panic/{}:{}", p.backend, p.kind), format!("panic: {pn}"), json!({"string": text})),
+                    }
+                }
+            };
+            for len in 0..=MAXLEN {
+                offer(&mut o, &vec![0u8; len], format!("{len} zero bytes"));
+                offer(&mut o, &(0..len).map(|i| (i * 37 + 11) as u8).collect::<Vec<u8>>(), format!("{len} patterned bytes"));
+            }
+            for s in ss.iter() {
+                if s.kind.starts_with("token") {
+                    continue;
+                }
+                if let Some((_, b)) = crate::pk::split(&s.text) {
+                    if !own.contains(&b.len()) {
+                        offer(&mut o, &b, format!("the body of a valid v{} {} made by {}", s.ver, s.kind, s.backend));
+                    }
+                }
+            }
+            o.nontrivial = o.evals;
+            o
+        },
+    )
+    .witness(&["rejected", "variable-length-kind"])
+}
+
 pub fn build(ctx: &Ctx) -> Property {
     let mut p = Property::new("C10", "exploration");
     p.subs.push(pairs_sub(ctx));
     p.subs.push(headers_sub());
     p.subs.push(key_bytes_sub(ctx));
+    p.subs.push(body_length_sub(ctx));
     // authenticated blobs with a rewritten header must fail to unseal / unwrap (shared with C02 / C06)
     let mut t = crate::c02::relabel_sub(ctx);
     t.name = "token-header-relabel".into();
